@@ -636,6 +636,13 @@ def suite(prop, rng, tier):
             else:
                 cases.append(rand_history(rng, rng.randint(25, 45) if prop == "C04" else rng.randint(40, 90), MENU_ALL,
                                           caps=list(caps), ncls=24).line())
+    # the fifth kind of misbehaving == (seed mod 5 = 3) is determined by the OPERANDS (a == b iff class a <= class b:
+    # asymmetric), not by a call counter: under it the order of the operands of every comparison the crate makes is
+    # observable, and model and crate must agree on it -- a slice of such histories in every suite
+    for _ in range(N(60, 800)):
+        caps = None if rng.random() < 0.7 else [17, 8, 17, 4]
+        cases.append(rand_history(rng, rng.randint(8, 36), MENU_ALL_SAFE, adv=1, seed=rng.getrandbits(40) * 5 + 3,
+                                  caps=caps, ncls=(24 if caps else 6)).line())
     if prop not in ("C02", "C04", "C05", "C06"):
         # every suite also carries a slice of whole-API histories: the theorems of every property rest on the
         # same model, so a correspondence break anywhere concerns them all (those four suites draw from MENU_ALL already)
